@@ -47,7 +47,7 @@ class Site:
 
 def enumerate_sites(prog, fns=None):
     out = []
-    for f in (fns if fns is not None else prog.fns.values()):
+    for f in (fns if fns is not None else prog.shape_fns()):
         if f.body is None:
             continue
         counter = {}
